@@ -163,7 +163,7 @@ main(int argc, char **argv)
   if (msa1)   esl_msa_Destroy(msa1);
   if (msa2)   esl_msa_Destroy(msa2);
   if (subfp)  fclose(subfp);
-  esl_fatal(errbuf);
+  esl_fatal("%s", errbuf);
   return 1; /* never reached */
 }
 
